@@ -131,6 +131,20 @@ def run(ctx):
                 if bw and not pw:
                     ctx.ob("R03.1", key + "/ballot without tally", False, detail="ballot written but proposal tally not updated",
                            sites=[x_[1].site for x_ in bw])
+                elif bw:
+                    # ... and the proposal written on a ballot-recording path is the created one or the stored one with its tally
+                    # moved (checked above): a tally rebuilt some other way (say, re-summed from a listing) is not "stored + this ballot"
+                    okw = False
+                    for i, e in pw:
+                        if e.op == "remove":
+                            continue
+                        base, fields = update_base(e.value)
+                        lf = loaded_from(base)
+                        if e.value[0] == "struct" or ("votes" in fields and lf is not None and lf[0] == PROP):
+                            okw = True
+                    ctx.ob("R03.1", key + "/ballot and tally move together", okw, sites=[x_[1].site for x_ in bw] + [e.site for _, e in pw],
+                           detail="a ballot is recorded but the proposal written on that path is not the stored proposal with its tally "
+                                  "changed: %s" % [show(e.value)[:160] for _, e in pw][:2])
                 # R03.3
                 if variant == "Execute" and pw:
                     i, e = pw[0]
